@@ -43,7 +43,7 @@ impl Shrink for Case {
     }
 }
 
-fn arb_case() -> BoxedStrategy<Case> {
+pub fn arb_case() -> BoxedStrategy<Case> {
     let cfg = GenCfg { utf8: true, ..GenCfg::default() };
     (0u32..=4)
         .prop_flat_map(move |d| {
@@ -322,6 +322,9 @@ pub fn deep_probe_child() -> i32 {
     let h = std::thread::Builder::new()
         .stack_size(2 << 20)
         .spawn(|| {
+            // C09 only asks whether the process survives: keep going behind a refusal failure
+            let go_on = std::env::var("VERIF_DEEP_CONTINUE").is_ok();
+            let mut failed = false;
             for depth in [1_000usize, 20_000, 200_000] {
                 for hop in [0u8, 1, 2] {
                     let c = DepthCase { depth, hops: vec![hop] };
@@ -339,7 +342,10 @@ pub fn deep_probe_child() -> i32 {
                             Err(e) if is_depth_limit(&e) => {}
                             o => {
                                 println!("DEEP-FAIL sync {:?} depth {} hop {}: {:?}", pk, c.depth, hop, o.map_err(|e| format!("{:?}", e)));
-                                return 1;
+                                if !go_on {
+                                    return 1;
+                                }
+                                failed = true;
                             }
                         }
                         let (reader, _s) = ScriptedReader::new(data, vec![]);
@@ -348,7 +354,10 @@ pub fn deep_probe_child() -> i32 {
                             Ok(Err(e)) if is_depth_limit(&e) => {}
                             o => {
                                 println!("DEEP-FAIL async {:?} depth {} hop {}: {:?}", pk, c.depth, hop, o.map(|r| r.map_err(|e| format!("{:?}", e))).map_err(|_| "budget"));
-                                return 1;
+                                if !go_on {
+                                    return 1;
+                                }
+                                failed = true;
                             }
                         }
                     }
@@ -372,10 +381,16 @@ pub fn deep_probe_child() -> i32 {
                         Err(e) if is_depth_limit(&e) => {}
                         o => {
                             println!("DEEP-FAIL unchecked depth {} hop {}: {:?} (value occupies {})", depth, hop, o.map_err(|e| format!("{:?}", e)), inner.len());
-                            return 1;
+                            if !go_on {
+                                return 1;
+                            }
+                            failed = true;
                         }
                     }
                 }
+            }
+            if failed {
+                return 1;
             }
             println!("DEEP-OK");
             0
